@@ -245,7 +245,7 @@ def run(ck):
                 else:
                     sc.trigger(x, kind)
                 sim.net.clear()
-                for _ in range(int(70 / dt)):
+                for _ in range(int((monitors.retransmission_budget() + 50) / dt)):
                     sim.clock.advance(dt)
                     ep.step('tick')
                     sim.net.clear()
